@@ -19,8 +19,9 @@ def sibling_project(project, syntax, section, rng_style):
     old = project["syntax"]
     p["syntax"] = syntax
     cfg = p["cfg"]
-    old_glob = layouts.config_glob_key(old)
-    new_glob = layouts.config_glob_key(syntax)
+    kind = (p.get("cfg_glob") or {}).get("kind", "glob")
+    old_glob = layouts.config_glob_key(old, kind)
+    new_glob = layouts.config_glob_key(syntax, kind)
     cfg["file_patterns"] = [[syntax if key == old else (new_glob if key == old_glob and p.get("cfg_glob") else key), pats]
                             for key, pats in cfg["file_patterns"]]
     if p.get("cfg_glob"):
